@@ -814,6 +814,7 @@ func (p *Prog) regexSameInputs(out *RuleOut, flagsT *types.Named) {
 	}
 	good := patStored != nil && flagsStored != nil
 	validated := false
+	unguarded := ""
 	for _, b := range ctor.Blocks {
 		for _, ins := range b.Instrs {
 			c, ok := ins.(*ssa.Call)
@@ -822,11 +823,23 @@ func (p *Prog) regexSameInputs(out *RuleOut, flagsT *types.Named) {
 			}
 			if c.Call.Args[0] == patStored && c.Call.Args[1] == flagsStored {
 				// the callee must hand them to regexp/syntax.Parse
-				for _, b2 := range c.Call.StaticCallee().Blocks {
+				vf := c.Call.StaticCallee()
+				for _, b2 := range vf.Blocks {
 					for _, i2 := range b2.Instrs {
 						if c2, ok := i2.(*ssa.Call); ok && calleeQualified(&c2.Call) == "regexp/syntax.Parse" {
-							if c2.Call.Args[0] == ssa.Value(c.Call.StaticCallee().Params[0]) {
+							if c2.Call.Args[0] == ssa.Value(vf.Params[0]) {
 								validated = true
+								// acceptance (a nil return) only where syntax.Parse succeeded
+								errV := extractOf(c2, 1)
+								for _, r := range returnsOf(vf) {
+									if !isNilConst(stripConv(r.Results[len(r.Results)-1])) {
+										continue
+									}
+									if isNil, _ := nilFact(factsAt(r.Instr.Block()), errV); !isNil {
+										validated = false
+										unguarded = p.pos(r.Instr.Pos())
+									}
+								}
 							}
 						}
 					}
@@ -846,7 +859,11 @@ func (p *Prog) regexSameInputs(out *RuleOut, flagsT *types.Named) {
 	if good && validated && compiles > 0 {
 		out.ok(key, p.pos(ctor.Pos()), fnName(ctor), "NewRegex hands regexp/syntax.Parse the very pattern and flags it stores in the node")
 	} else {
-		out.viol(key, p.pos(ctor.Pos()), fnName(ctor), "the pattern/flags validated at parse time are not the ones stored in the node")
+		why := "the pattern/flags validated at parse time are not the ones stored in the node"
+		if unguarded != "" {
+			why = "the validator accepts a pattern on a path where regexp/syntax.Parse was not consulted or failed (return at " + unguarded + "): such a pattern panics in MustCompile at execution time"
+		}
+		out.viol(key, p.pos(ctor.Pos()), fnName(ctor), why)
 	}
 }
 
